@@ -158,6 +158,29 @@ func rootsOf(v ssa.Value, seen map[ssa.Value]bool, depth int) []root {
 			case *ssa.FieldAddr:
 				rs := rootsOf(a.X, seen, depth+1)
 				var out []root
+				// what this function itself stored into that field of that very value is what the load yields:
+				// `res := val.List(..).List(); res.V = l.V; sort(res.V)` sorts l's elements, however fresh res is
+				if fn := a.Parent(); fn != nil {
+					base := canonLoad(a.X)
+					for _, b := range fn.Blocks {
+						for _, in := range b.Instrs {
+							fa, ok := in.(*ssa.FieldAddr)
+							if !ok || fa.Field != a.Field || canonLoad(fa.X) != base || fa.Referrers() == nil {
+								continue
+							}
+							for _, r2 := range *fa.Referrers() {
+								if st, ok := r2.(*ssa.Store); ok && st.Addr == ssa.Value(fa) {
+									for _, sr := range rootsOf(st.Val, seen, depth+1) {
+										if sr.kind != rFresh {
+											sr.desc = "value stored into the field (" + sr.desc + ")"
+											out = append(out, sr)
+										}
+									}
+								}
+							}
+						}
+					}
+				}
 				for _, r := range rs {
 					if r.kind == rFresh {
 						out = append(out, r)
@@ -236,6 +259,34 @@ func rootsOf(v ssa.Value, seen map[ssa.Value]bool, depth int) []root {
 		return []root{{kind: rFresh, desc: "computed"}}
 	}
 	return []root{{kind: rUnknown, desc: fmt.Sprintf("%T", v)}}
+}
+
+// canonLoad sees through loads of a local variable cell that is stored exactly once (a variable captured by a closure is
+// such a cell, and every use of it is a separate load): all of them denote the stored value.
+func canonLoad(v ssa.Value) ssa.Value {
+	for d := 0; d < 4; d++ {
+		u, ok := v.(*ssa.UnOp)
+		if !ok || u.Op != token.MUL {
+			return v
+		}
+		al, ok := u.X.(*ssa.Alloc)
+		if !ok || al.Referrers() == nil {
+			return v
+		}
+		var stored ssa.Value
+		n := 0
+		for _, ref := range *al.Referrers() {
+			if st, ok := ref.(*ssa.Store); ok && st.Addr == ssa.Value(al) {
+				stored = st.Val
+				n++
+			}
+		}
+		if n != 1 {
+			return v
+		}
+		v = stored
+	}
+	return v
 }
 
 // ---------- in-place writes ----------
